@@ -38,7 +38,7 @@ PROOF_FAILURE_PATTERNS = (
     "could not prove termination", "might not be allowed", "unable to prove", "fails to satisfy",
 )
 LOG_MACROS = ("trace", "debug", "info", "warn", "error")
-SUBST_KINDS = ("closure-contract", "std-wrap", "std-wrap-all", "verus-syntax", "split-or-guard", "for-ghost-iter", "assoc-type", "eta-ctor", "enumerate-iter-mut", "name-impl-trait")
+SUBST_KINDS = ("closure-contract", "std-wrap", "std-wrap-all", "verus-syntax", "split-or-guard", "for-ghost-iter", "assoc-type", "eta-ctor", "enumerate-iter-mut", "enumerate-iter", "name-impl-trait")
 
 
 class ExtractError(Exception):
@@ -408,6 +408,29 @@ def extract_fn(repo, d, template_text):
             whole = whole[:ms[0].start()] + new + whole[ms[0].end():bo] + lbody2 + whole[bc + 1:]
             sig, body = _resplit(whole)
             tr.append({"kind": kind, "old": rustscan.norm_ws(old), "new": rustscan.norm_ws(new), "element": elem, "rewritten_uses": n_all})
+            continue
+        if kind == "enumerate-iter":
+            # Desugaring of `for (I, X) in E.iter().enumerate() { BODY }` over a slice / Vec `E` into
+            # `for I in IT: 0..E.len() { let X = &E[I]; BODY }` (trusted rule: the adapter yields (i, &E[i]) for i = 0..len in
+            # order). Checked mechanically: the header shapes correspond and E does not occur in BODY.
+            mo = re.match(r"^for\s*\(\s*(\w+)\s*,\s*(\w+)\s*\)\s+in\s+(.+?)\s*\.iter\(\)\s*\.enumerate\(\)$", rustscan.norm_ws(old))
+            mn = re.match(r"^for\s+(\w+)\s+in\s+(\w+)\s*:\s*0\s*\.\.\s*(.+?)\s*\.len\(\)$", rustscan.norm_ws(new))
+            if not mo or not mn or mo.group(1) != mn.group(1) or rustscan.norm_ws(mo.group(3)) != rustscan.norm_ws(mn.group(3)):
+                raise ExtractError("enumerate-iter: header shapes do not correspond")
+            idx, var, coll = mo.group(1), mo.group(2), rustscan.norm_ws(mo.group(3))
+            rx, _ = _meta_regex(old)
+            ms = list(re.finditer(rx, whole))
+            if len(ms) != 1:
+                raise ExtractError(f"lost anchor: SUBST enumerate-iter header occurs {len(ms)} times (needs exactly 1): {old[:80]!r}")
+            mask = rustscan.code_mask(whole)
+            bo = whole.index("{", ms[0].end())
+            bc = rustscan.match_close(whole, mask, bo)
+            lbody = whole[bo:bc + 1]
+            if re.search(re.escape(coll).replace(r"\ ", r"\s*"), lbody):
+                raise ExtractError("enumerate-iter: the collection is used inside the loop body")
+            whole = whole[:ms[0].start()] + new + whole[ms[0].end():bo] + "{\n                let " + var + " = &" + coll + "[" + idx + "];" + lbody[1:] + whole[bc + 1:]
+            sig, body = _resplit(whole)
+            tr.append({"kind": kind, "old": rustscan.norm_ws(old), "new": rustscan.norm_ws(new), "element": f"&{coll}[{idx}]"})
             continue
         if kind == "std-wrap-all":
             # every occurrence of a receiver expression is routed through a trusted accessor
